@@ -25,6 +25,8 @@
 (*       slider on every ray, pinner capturable or not, second attacker    *)
 (*   F7  castling look-alikes : a rook or queen on e1 / e8 moving two      *)
 (*       files sideways (e8g8, e8c8, e1g1, e1c1), with and without rights  *)
+(*   F8  promotions next to like pieces : a piece of the promotion kind    *)
+(*       already exists and an enemy piece can capture it afterwards       *)
 (* Both colours are covered by emitting Mirror(p) as well (its legal set   *)
 (* is computed by Legal on the mirrored position, not by symmetry).        *)
 (***************************************************************************)
@@ -88,13 +90,20 @@ F3Set(x) ==
 
 \* ---- F4: promotions.  White pawn on the 7th on file pf; black pieces on the 8th left/right/ahead; a black slider anywhere
 F4Set(ss) ==
-  {MkPos({<<wk, 6>>, <<bk, 12>>, <<MkSq(pf, 6), 1>>, <<ss, sk>>}
-           \cup (IF l /\ pf > 0 THEN {<<MkSq(pf - 1, 7), 8>>} ELSE {})
-           \cup (IF r /\ pf < 7 THEN {<<MkSq(pf + 1, 7), 10>>} ELSE {})
-           \cup (IF a THEN {<<MkSq(pf, 7), 9>>} ELSE {}),
-         0, 0, -1) :
-      wk \in (IF Full THEN {4, 12, 20, 48, 55, 62, 33} ELSE {4, 55}), bk \in (IF Full THEN {63, 56, 32} ELSE {63}),
-      pf \in 0..7, sk \in Sliders, l \in BOOLEAN, r \in BOOLEAN, a \in BOOLEAN}
+  UNION {
+    {MkPos({<<wk, 6>>, <<bk, 12>>, <<MkSq(pf, 6), 1>>, <<ss, sk>>}
+             \cup (IF lra[1] /\ pf > 0 THEN {<<MkSq(pf - 1, 7), 8>>} ELSE {})
+             \cup (IF lra[2] /\ pf < 7 THEN {<<MkSq(pf + 1, 7), 10>>} ELSE {})
+             \cup (IF lra[3] THEN {<<MkSq(pf, 7), 9>>} ELSE {}),
+           0, 0, -1) :
+        wk \in (IF Full THEN {4, 12, 20, 48, 55, 62, 33} ELSE {4}),
+        \* the enemy king also on the pawn's own file below it and on the diagonals through the pawn's square: a promoted
+        \* queen / rook / bishop then checks THROUGH the square the pawn has just left
+        bk \in (IF Full THEN {63, 56, 32} ELSE {63}) \cup {MkSq(pf, 3)} \cup (IF pf < 7 THEN {MkSq(pf + 1, 5)} ELSE {}) \cup (IF pf > 0 THEN {MkSq(pf - 1, 5)} ELSE {}),
+        sk \in Sliders,
+        lra \in (IF Full THEN BOOLEAN \X BOOLEAN \X BOOLEAN
+                 ELSE {<<TRUE, TRUE, FALSE>>, <<FALSE, FALSE, TRUE>>, <<TRUE, FALSE, FALSE>>, <<FALSE, TRUE, TRUE>>})} :
+    pf \in 0..7}
 
 \* ---- F6: pins.  White king wk, white piece of kind k on a ray square, black slider further along the ray,
 \* plus one more black piece (second attacker / capturable piece) on seedsq
@@ -111,8 +120,8 @@ F5Set(x) ==
   {MkPos({<<x, 6>>, <<60, 12>>, <<56, 10>>, <<63, 10>>, <<y, k>>}
            \cup (IF pb THEN {<<49, 1>>} ELSE {}) \cup (IF pg THEN {<<54, 1>>} ELSE {}),
          0, rights, -1) :
-      rights \in {4, 8, 12}, pb \in BOOLEAN, pg \in BOOLEAN, k \in {2, 3, 5, 4},
-      y \in (IF Full THEN {41, 50, 53, 46, 35, 36, 0, 7, 42, 45, 19, 20} ELSE {41, 53, 35, 36, 0, 7})}
+      rights \in {4, 8, 12}, pb \in BOOLEAN, pg \in BOOLEAN, k \in (IF Full THEN {2, 3, 5, 4} ELSE {2, 3, 5}),
+      y \in (IF Full THEN {41, 50, 53, 46, 35, 36, 0, 7, 42, 45, 19, 20} ELSE {41, 53, 35, 36})}
 
 \* ---- F7: moves that LOOK like castling in UCI text but are not: a rook / queen / knight-free piece standing on e1 or e8
 \* (either side's king home square) moving two files sideways, with and without castling rights of the mover;
@@ -123,7 +132,14 @@ F7Set(x) ==
   \cup
   {MkPos({<<kw, 6>>, <<x, 12>>, <<4, k>>, <<60, k2>>}, 0, 0, -1) : kw \in {16, 23}, k \in {4, 5}, k2 \in {4, 5}}
 
+\* ---- F8: promotions while a piece of the promotion kind already exists and can be captured by the reply (piece-list
+\* bookkeeping under nested make/unmake): white pawn on the 7th, white piece of kind k somewhere, a black piece able to take it
+F8Set(x) ==
+  {MkPos({<<wk, 6>>, <<62, 12>>, <<MkSq(pf, 6), 1>>, <<x, k>>, <<y, bp>>}, 0, 0, -1) :
+      wk \in {4, 16}, pf \in {0, 3, 6}, k \in {2, 3, 4, 5}, bp \in {8, 9, 10, 11}, y \in (IF Full THEN Sq ELSE {9, 18, 27, 36, 45, 11, 25, 33, 52, 3})}
+
 Candidates(x) == CASE Fam = "F1" -> {p \in F1Set(x) : F1Ok(x, p)}
+                   [] Fam = "F8" -> F8Set(x)
                    [] Fam = "F7" -> F7Set(x)
                    [] Fam = "F5" -> F5Set(x)
                    [] Fam = "F2" -> {p \in F2Set(x) : F2Ok(p)}
